@@ -19,7 +19,7 @@ let cipher tag mk key =
   | None -> let e = memo (mk key) in if Hashtbl.length cache > 64 then Hashtbl.reset cache; Hashtbl.add cache k e; e
 let sm4e key = cipher "sm4e" sm4_encrypt_block key
 let sm4d key = cipher "sm4d" sm4_decrypt_block key
-let aese key = cipher "aese" aes_encrypt_block key
+let aese key = cipher "aese" aes_encrypt_block16 key
 let aesd key = cipher "aesd" aes_decrypt_block key
 let aes_key_ok key = match ilen key with 16 | 24 | 32 -> true | _ -> false
 
@@ -45,6 +45,12 @@ let handle ws =
     let r = gf128_mul a b in
     let s1 = gf_mul_horner (poly a) (poly b) and s2 = gf_mul_alg1 (poly a) (poly b) in
     if poly r = s1 && s1 = s2 then hx (gf_to_bytes r) else "MODEL-IMPL-SPEC-DIFFER gf128mul"
+  | ["gf128x2"; a] ->
+    let a = gf_from_bytes (bytes_of_hex a) in
+    let r = gf128_mul_by_2 a in
+    if poly r = xtime (poly a) then hx (gf_to_bytes r) else "MODEL-IMPL-SPEC-DIFFER gf128x2"
+  | ["gf128one"; a] ->
+    let a = gf_from_bytes (bytes_of_hex a) in hx (gf_to_bytes (gf128_mul a gf_one))
   | ["ghash"; h; aad; c] ->
     let h = bytes_of_hex h and aad = bytes_of_hex aad and c = bytes_of_hex c in
     both (ghash h aad c) (ghash_spec h aad c)
